@@ -16,6 +16,8 @@
 //! `lim.txw cli <own> <P|-> <k>`   back-pressure: send_request (size k) is started while the peer grants NO bidirectional stream
 //!     credit, so the call parks in poll_open_bidi; the peer's SETTINGS then arrive and are processed by the driver; only then
 //!     is credit granted.  -> `ok W:ok:<payload>` | `ok W:err:<scope:code:variant>:<written|->`
+//! `site.enc <cli.req|cli.trl|srv.resp|srv.trl> <fields>`  the regular fields (name:value hex, comma separated) are sent as the header map of a
+//!     GET https://a/ request / a 200 response / trailers through the REAL send site -> `ok <payload of the HEADERS frame written>`
 //! (k is reached with one extra field `x: vvv..`; request base 167 = GET https://a/, response base 42 = 200, trailers base 0)
 use bytes::Bytes;
 use h3v::simquic::*;
@@ -722,6 +724,102 @@ async fn txw_cli(w: Shared, own: u64, p: Vec<u8>, k: u64, cancel: Rc<Cell<bool>>
     out
 }
 
+// ------------------------------------------------------------------ what the three real send sites write for a given field list
+
+fn header_map(fields: &str) -> http::HeaderMap {
+    let mut m = http::HeaderMap::new();
+    if fields != "-" {
+        for f in fields.split(',') {
+            let (n, v) = f.split_once(':').expect("name:value");
+            m.append(
+                http::header::HeaderName::from_bytes(&unhex(n)).expect("driver: header name"),
+                http::HeaderValue::from_bytes(&unhex(v)).expect("driver: header value"),
+            );
+        }
+    }
+    m
+}
+
+/// site: cli.req | cli.trl | srv.resp | srv.trl ; prints the payload of the HEADERS frame that site wrote
+async fn site_enc(w: Shared, site: String, fields: String, cancel: Rc<Cell<bool>>) -> String {
+    let map = header_map(&fields);
+    if site.starts_with("cli") {
+        let mut b = h3::client::builder();
+        b.send_grease(false);
+        let (conn, mut sr): (h3::client::Connection<SimConn, Bytes>, h3::client::SendRequest<SimOpener, Bytes>) =
+            match cancellable(b.build(SimConn { world: w.clone() }), &cancel).await {
+                Some(Ok(c)) => c,
+                _ => return "build-err".into(),
+            };
+        let mut req = http::Request::builder().method("GET").uri("https://a/").body(()).unwrap();
+        if site == "cli.req" {
+            *req.headers_mut() = map.clone();
+        }
+        let r = cancellable(sr.send_request(req), &cancel).await;
+        let out = match r {
+            Some(Ok(mut s)) => {
+                let id = s.id().into_inner();
+                if site == "cli.req" {
+                    format!("ok {}", tx_since(&w, id, 0))
+                } else {
+                    let before = tx_len(&w, id);
+                    let r2 = cancellable(s.send_trailers(map), &cancel).await;
+                    let o = match r2 {
+                        Some(Ok(())) => format!("ok {}", tx_since(&w, id, before)),
+                        Some(Err(e)) => format!("err {}", stream_err(&e)),
+                        None => "hang".into(),
+                    };
+                    std::mem::forget(s);
+                    o
+                }
+            }
+            Some(Err(e)) => format!("err {}", stream_err(&e)),
+            None => "hang".into(),
+        };
+        std::mem::forget(conn);
+        std::mem::forget(sr);
+        out
+    } else {
+        let mut b = h3::server::builder();
+        b.send_grease(false);
+        let mut conn: h3::server::Connection<SimConn, Bytes> = match cancellable(b.build(SimConn { world: w.clone() }), &cancel).await {
+            Some(Ok(c)) => c,
+            _ => return "build-err".into(),
+        };
+        ev(&w, "B0".into());
+        chunk_ev(&w, 0, &frame(1, &unhex(MIN_REQUEST)));
+        ev(&w, "0:F".into());
+        let mut s: SrvStream = match cancellable(conn.accept(), &cancel).await {
+            Some(Ok(Some(resolver))) => match cancellable(resolver.resolve_request(), &cancel).await {
+                Some(Ok((_r, s))) => s,
+                _ => return "resolve-failed".into(),
+            },
+            _ => return "accept-failed".into(),
+        };
+        let mut resp = http::Response::builder().status(200).body(()).unwrap();
+        if site == "srv.resp" {
+            *resp.headers_mut() = map.clone();
+        }
+        let before = tx_len(&w, 0);
+        let mut out = match cancellable(s.send_response(resp), &cancel).await {
+            Some(Ok(())) => format!("ok {}", tx_since(&w, 0, before)),
+            Some(Err(e)) => format!("err {}", stream_err(&e)),
+            None => "hang".into(),
+        };
+        if site == "srv.trl" {
+            let before = tx_len(&w, 0);
+            out = match cancellable(s.send_trailers(map), &cancel).await {
+                Some(Ok(())) => format!("ok {}", tx_since(&w, 0, before)),
+                Some(Err(e)) => format!("err {}", stream_err(&e)),
+                None => "hang".into(),
+            };
+        }
+        std::mem::forget(s);
+        std::mem::forget(conn);
+        out
+    }
+}
+
 fn drive<F: Future<Output = String> + 'static>(mk: impl FnOnce(Shared, Rc<Cell<bool>>) -> F, side: Side) -> (String, Shared) {
     drive_with(mk, side, 1000)
 }
@@ -821,6 +919,12 @@ fn main() {
                 drive(move |w, c| tx_cli(w, own, p, ops, c), Side::Client)
             };
             format!("ok {}", res)
+        }
+        ["site.enc", site, fields] => {
+            let (site, fields) = (site.to_string(), fields.to_string());
+            let side = if site.starts_with("cli") { Side::Client } else { Side::Server };
+            let (res, _w) = drive(move |w, c| site_enc(w, site, fields, c), side);
+            res
         }
         ["lim.txw", "cli", own, p, k] => {
             let own: u64 = own.parse().unwrap();
